@@ -312,16 +312,30 @@ func c19One(c *core.Ctx, cs c19Case, sample bool) {
 			}
 		}
 	}()
+	// the caller passes no, one or two extension callbacks: the deadline is restarted all the same
+	ncb := (len(cs.Msgs) + cs.TimeoutHalfUnits) % 3
+	var exts2 []int
+	var cbs []func(time.Duration)
+	if ncb >= 1 {
+		cbs = append(cbs, func(d time.Duration) {
+			emu.Lock()
+			exts = append(exts, int(d/time.Millisecond))
+			emu.Unlock()
+		})
+	}
+	if ncb == 2 {
+		cbs = append(cbs, func(d time.Duration) {
+			emu.Lock()
+			exts2 = append(exts2, int(d/time.Millisecond))
+			emu.Unlock()
+		})
+	}
 	t0 := time.Now()
 	var resp resprot.Response
 	retCh := make(chan struct{})
 	go func() {
 		defer close(retCh)
-		resp = resprot.SendRequest(sc, "call.svc.x.do", map[string]int{"a": 1}, timeout, func(d time.Duration) {
-			emu.Lock()
-			exts = append(exts, int(d/time.Millisecond))
-			emu.Unlock()
-		})
+		resp = resprot.SendRequest(sc, "call.svc.x.do", map[string]int{"a": 1}, timeout, cbs...)
 	}()
 	_, _, lastWhen, _ := c19Simulate(cs)
 	select {
@@ -390,9 +404,19 @@ func c19One(c *core.Ctx, cs c19Case, sample bool) {
 			return
 		}
 	}
-	if !reflect.DeepEqual(gotExts, wantExts) && !(len(gotExts) == 0 && len(wantExts) == 0) {
+	desc["callbacks"] = ncb
+	if ncb >= 1 && !reflect.DeepEqual(gotExts, wantExts) && !(len(gotExts) == 0 && len(wantExts) == 0) {
 		desc["got_extensions"], desc["want_extensions"] = gotExts, wantExts
 		c.Violation("C19/extension-callbacks", fmt.Sprintf("extension callbacks got %v, announced durations before the return were %v", gotExts, wantExts), desc)
+	}
+	if ncb == 2 {
+		emu.Lock()
+		got2 := append([]int(nil), exts2...)
+		emu.Unlock()
+		if !reflect.DeepEqual(got2, gotExts) {
+			desc["got_extensions"], desc["got_extensions_second_callback"] = gotExts, got2
+			c.Violation("C19/extension-callbacks:second", fmt.Sprintf("the first extension callback got %v, the second %v", gotExts, got2), desc)
+		}
 	}
 	if elapsed < wantWhen-15*time.Millisecond || elapsed > wantWhen+500*time.Millisecond {
 		if elapsed > wantWhen+500*time.Millisecond {
